@@ -76,7 +76,7 @@ func (wtr *XMLWtr) container(lvl int) node.Node {
 			return nil, nil
 		}
 		if !meta.IsList(r.Meta) {
-			if err = wtr.beginContainer(wtr.ident(r.Path)); err != nil {
+			if err = wtr.beginContainer(wtr.ident(r.Path) + wtr.xmlnsAttr(r.Path)); err != nil {
 				return nil, err
 			}
 		}
@@ -110,7 +110,7 @@ func (wtr *XMLWtr) container(lvl int) node.Node {
 		return nil
 	}
 	s.OnField = func(r node.FieldRequest, hnd *node.ValueHandle) (err error) {
-		ns := ""
+		ns := wtr.xmlnsChange(r.Path)
 
 		if l, listable := hnd.Val.(val.Listable); listable {
 			for i := 0; i < l.Len(); i++ {
@@ -131,6 +131,7 @@ func (wtr *XMLWtr) container(lvl int) node.Node {
 		}
 
 		ident := wtr.ident(r.Selection.Path)
+		ident += wtr.xmlnsAttr(r.Selection.Path)
 
 		if err = wtr.beginContainer(ident); err != nil {
 			return
@@ -153,6 +154,25 @@ func (wtr *XMLWtr) getXmlns(p *node.Path) string {
 		ns = meta.OriginalModule(p.Meta).Namespace()
 	}
 	return ns
+}
+
+// xmlnsChange is the name space of a node that is not in the name space of its parent, where
+// the element cannot inherit it
+func (wtr *XMLWtr) xmlnsChange(p *node.Path) string {
+	if p.Parent == nil || p.Parent.Meta == nil {
+		return ""
+	}
+	if ns := wtr.getXmlns(p); ns != wtr.getXmlns(p.Parent) {
+		return ns
+	}
+	return ""
+}
+
+func (wtr *XMLWtr) xmlnsAttr(p *node.Path) string {
+	if ns := wtr.xmlnsChange(p); ns != "" {
+		return " xmlns=" + "\"" + ns + "\""
+	}
+	return ""
 }
 
 func (wtr *XMLWtr) beginContainer(ident string) (err error) {
